@@ -1800,7 +1800,7 @@ impl Monitor {
                 }
                 None
             }
-            Ev::Proc { src, key, .. } => {
+            Ev::Proc { src, key, r, w, .. } => {
                 if let Some(v) = self.close_win() {
                     return Some(v);
                 }
@@ -1842,7 +1842,9 @@ impl Monitor {
                 if m.lifecycle && m.taint.is_none() && self.live(s) {
                     let nsubs = m.sub_pings.len() as u64;
                     let sub = key & 0xFFFF;
-                    if sub < nsubs && !m.bh_keys.contains(key) && m.bh == 1 {
+                    // (a write-only event on a sub-source's token is the probe's own synthetic event riding on that token)
+                    let synthetic_on_sub = *w && !*r && m.synth_owed;
+                    if sub < nsubs && !m.bh_keys.contains(key) && m.bh == 1 && !synthetic_on_sub {
                         return viol("C14.iter", &["C14"], format!("source #{s} processes real event {key:#x} that was not shown to its before_handle_events ({:x?})", m.bh_keys));
                     }
                 }
